@@ -390,6 +390,30 @@ def r10_11(ctx: Ctx) -> None:
                   "clear) whose attribute word lacks the DIRECTORY bit (attribute 0, ARCHIVE only, unix mode only) is listed and extracted as a file", construct="is_directory format rule")
 
 
+def r10_13(ctx: Ctx, rule: str = "R10.13") -> None:
+    """the EmptyFile vector has one bit per member WITH an empty stream, in order: FilesInfo._read hands its bits out to exactly those members
+    (`f["emptyfile"] = next(bits, False)` under `f.get("emptystream")` true, the bits being an iterator over `self.emptyfiles`).  Handing
+    them to the other members, or to all, turns directories into empty files and back."""
+    f = ctx.prog.func("archiveinfo", "FilesInfo._read")
+    sets = [n for n in walk(f.node) if isinstance(n, ast.Assign) and isinstance(n.targets[0], ast.Subscript) and isinstance(n.targets[0].slice, ast.Constant)
+            and n.targets[0].slice.value == "emptyfile"]
+    ctx.floor(rule, len(sets), 1, "per-member EmptyFile flag in FilesInfo._read")
+    for n in sets:
+        mem = norm(n.targets[0].value)
+        facts = q.facts_at(f, n)
+        only_empty = any(pol and ((isinstance(cd, ast.Call) and attr_tail(cd) == "get" and norm(cd.func.value) == mem and cd.args and isinstance(cd.args[0], ast.Constant)
+                                  and cd.args[0].value == "emptystream") or
+                                 (isinstance(cd, ast.Subscript) and norm(cd.value) == mem and isinstance(cd.slice, ast.Constant) and cd.slice.value == "emptystream")) for cd, pol in facts)
+        src_ok = isinstance(n.value, ast.Call) and dotted(n.value.func) == "next" and n.value.args and isinstance(n.value.args[0], ast.Name) and any(
+            isinstance(v, ast.Call) and dotted(v.func) == "iter" and v.args and norm(v.args[0]).endswith("emptyfiles") for v in q.assigned_values(f, n.value.args[0].id))
+        lp = q.enclosing_loops(f, n)
+        over_all = bool(lp) and norm(lp[-1].iter) == "self.files"
+        ctx.check(only_empty and src_ok and over_all, rule, f, n, "EmptyFile bits go, in order, to the members that have an empty stream",
+                  f"`{norm(n)}` is not executed for exactly the members with an empty stream (under `{mem}.get('emptystream')` true, in a loop over all members, from an iterator over "
+                  "`self.emptyfiles`): the bits of the EmptyFile vector land on the wrong members - empty files are listed and extracted as directories and directories as files",
+                  construct="EmptyFile bits assignment")
+
+
 def r10_12(ctx: Ctx) -> None:
     """one member's time stamp cannot abort the listing: a FILETIME is any 64-bit number, datetime ends with year 9999.  Every conversion of
     a stored FILETIME to datetime in the listing functions (filetime_to_dt, ArchiveTimestamp.as_datetime, fromtimestamp) stands in a try
@@ -411,6 +435,7 @@ def r10_12(ctx: Ctx) -> None:
 
 
 def run(ctx: Ctx) -> None:
+    r10_13(ctx)
     r10_12(ctx)
     r10_11(ctx)
     from . import c08 as _c08
